@@ -58,6 +58,8 @@ partial def toExpr : S → Option Expr
   | .list [.atom "bin", .atom op, a, b] => do let o ← binOpOfName op; let x ← toExpr a; let y ← toExpr b; pure (.bin o x y)
   | .list (.atom "call" :: .atom n :: args) => do let xs ← args.mapM toExpr; pure (.call n xs)
   | .list (.atom "fcall" :: .atom n :: args) => do let xs ← args.mapM toExpr; pure (.fcall n xs)
+  | .list (.atom "member" :: .atom n :: recv :: args) => do
+    let m ← Member.ofName n; let r ← toExpr recv; let xs ← args.mapM toExpr; pure (.member m r xs)
   | _ => none
 
 def toDir : String → Dir
@@ -83,6 +85,10 @@ mutual
         | x => (toExpr x).map some
       let bd ← toStmts body
       pure (.forS v be ee se (toDir dir) bd)
+    | .list (.atom "forall" :: .atom it :: src :: .atom dir :: body) => do
+      let se ← toExpr src
+      let bd ← toStmts body
+      pure (.forallS it se (toDir dir) bd)
     | .list (.atom "begin" :: .list (.atom "body" :: body) :: whens) => do
       let b ← toStmts body
       let ws ← whens.mapM toWhen
